@@ -223,6 +223,28 @@ func (s *Store) FaultAt(op string, occ int, kind string) {
 	s.mu.Unlock()
 }
 
+// FaultNext plans fault kind for the nth (1-based) call of op counted from now on (histories: arm a fault after
+// earlier requests already used the operation).
+func (s *Store) FaultNext(op string, nth int, kind string) {
+	s.mu.Lock()
+	s.faults[fmt.Sprintf("%s#%d", op, s.occ[op]+nth)] = kind
+	s.mu.Unlock()
+}
+
+// Occ returns how many times op was called so far.
+func (s *Store) Occ(op string) int {
+	s.mu.Lock()
+	defer s.mu.Unlock()
+	return s.occ[op]
+}
+
+// ResetFired forgets which planned faults fired so far (histories).
+func (s *Store) ResetFired() {
+	s.mu.Lock()
+	s.fired = nil
+	s.mu.Unlock()
+}
+
 // PendingFault returns the kind of a planned fault of op that has not fired yet ("" = none).
 func (s *Store) PendingFault(op string) string {
 	s.mu.Lock()
